@@ -114,6 +114,8 @@ def recv_attr(ev: Event) -> Optional[str]:
     t = r.term
     if t[0] == 'attr':
         return t[2]
+    if t[0] == 'new':
+        return ev.data.get('recv_alias')  # object created on this path and stored to that attribute
     return None
 
 
